@@ -32,7 +32,7 @@ CLAIMED = {
     "C10": ("5/C10", "Seeded search over WebSocket message sequences (types, sizes around the limit counted in characters/bytes, "
             "fragmentation inside code points, pings between fragments, permessage-deflate) x carrier (HTTP/1.1 upgrade, HTTP/2 "
             "extended CONNECT) x recv segmentation on both workers, with own frame builder/parser/inflater; the size-limit "
-            "boundary {limit-1, limit, limit+1} is enumerated for both kinds, carriers and workers; on HTTP/2 the client may shrink and reopen SETTINGS_INITIAL_WINDOW_SIZE in mid-session. Two defects are known findings (F14 in wsproto, F21).",
+            "boundary {limit-1, limit, limit+1} is enumerated for both kinds, carriers and workers; on HTTP/2 the client may shrink and reopen SETTINGS_INITIAL_WINDOW_SIZE in mid-session. One dependency defect (F14 in wsproto) is a known finding.",
             "own RFC 6455/7692 client code trusted; only valid UTF-8 is sent"),
     "C11": ("5/C11", "Complete enumeration of a small handshake matrix (upgrade/connection/version/key/http-version x accept/close, both "
             "carriers and workers) plus seeded search over larger header combinations, application decisions (valid and invalid "
@@ -61,7 +61,7 @@ CLAIMED = {
     "C08": ("5/C08", "Enumeration of release kind x waiting point x protocol x worker plus seeded variation of sizes, buffers and "
             "timing: multi-megabyte responses against a stalled reader / closed HTTP/2 window with a byte ledger sampled during the "
             "stall, liveness of a second connection and a sibling stream, and a 1 s bound on pending sends after the release event.",
-            "512 KiB + one chunk is used as the fixed bound; WebSocket-over-HTTP/2 pressure is exercised by C10 (F21)"),
+            "512 KiB + one chunk is used as the fixed bound; WebSocket-over-HTTP/2 pressure is exercised by C10"),
     "C12": ("5/C12", "Complete enumeration of all send sequences up to length 4 (quick) / 5 (thorough) over the reduced ASGI alphabet for "
             "HTTP/1.1, HTTP/2 and WebSocket on both carriers and workers, judged against a reference automaton of the ASGI "
             "specification with a before/after byte ledger of the server socket for every rejected message; seeded runs add longer "
